@@ -207,3 +207,28 @@ n
 ;=> #t
 (begin (display "hi") (write 'x) (newline) 5)
 ;=> 5
+===
+(define-syntax swap! (syntax-rules () ((_ a b) (let ((tmp a)) (set! a b) (set! b tmp)))))
+(define p 1)
+(define q 2)
+(swap! p q)
+(list p q)
+;=> (2 1)
+(define-syntax my-or (syntax-rules () ((_) #f) ((_ e) e) ((_ e1 e2 ...) (let ((t e1)) (if t t (my-or e2 ...))))))
+(my-or #f #f 7)
+;=> 7
+(define-syntax my-list (syntax-rules () ((_ x ...) (list x ...))))
+(my-list 1 (+ 1 1) 'three)
+;=> (1 2 three)
+(define-syntax kw (syntax-rules (=>) ((_ a => b) (cons a b)) ((_ a b c) 'other)))
+(kw 1 => 2)
+;=> (1 . 2)
+(kw 1 2 3)
+;=> other
+(define-syntax mk (syntax-rules () ((_) 'made-by-macro)))
+(eq? (mk) 'made-by-macro)
+;=> #t
+(my-list)
+;=> ()
+(kw 1)
+;=> !
